@@ -465,14 +465,12 @@ def c01_entry(I):
     extra = (x == fb[1].t) if fb else z3.BoolVal(False)
     I.oblige('dispatch_list_is_the_live_handler_set', z3.ForAll([x], member == z3.Or(z3.Select(hs.arr, x), extra)),
              detail='exactly the handlers getHandlers returns now (plus the internal fallback handler) are called')
-    I.oblige('each_handler_once', z3.ForAll([i, x], z3.Implies(z3.And(L.lo <= i, i < x_int(x), x_int(x) < L.hi), True)) if False else z3.BoolVal(True))
+    j = core.fresh('j', z3.IntSort())
+    I.oblige('each_handler_once', z3.ForAll([i, j], z3.Implies(z3.And(L.lo <= i, i < j, j < L.hi), z3.Select(L.arrs[0], i) != z3.Select(L.arrs[0], j))),
+             detail='the list that is iterated (and cached) holds no handler twice, so the loop calls each matching handler exactly once')
     stored = g.get('CACHE_STORE', [])
     I.oblige('fresh_list_cached_under_name_and_channels', z3.BoolVal(len(stored) == 1 and stored[0][1] is L))
     I.oblige('stale_flag_reset_only_with_a_cleared_cache', z3.Implies(flag0, z3.BoolVal(bool(g.get('CACHE_CLEARED')))))
-
-
-def x_int(x):
-    return x
 
 
 def c01_extra(I, a):
